@@ -922,6 +922,7 @@ def _mask(sig, num_args, hide_args, hide_kwargs,
 
     pokargs_by_name = dict((p.name, p) for p in pokargs)
     consumed_names = set()
+    posonly_names = set(p.name for p in posargs)
 
     if hide_args:
         consumed_names.update(p.name for p in posargs)
@@ -958,7 +959,10 @@ def _mask(sig, num_args, hide_args, hide_kwargs,
         named_args = []
 
     for kwarg_name in named_args:
-        if kwarg_name in consumed_names:
+        if kwarg_name in posonly_names and varkwargs:
+            # lands in **kwargs, whatever happened to the positional parameter
+            posonly_names.discard(kwarg_name)
+        elif kwarg_name in consumed_names:
             raise ValueError('Duplicate argument: {0!r}'.format(kwarg_name))
         elif kwarg_name in pokargs_by_name:
             i = pokargs.index(pokargs_by_name[kwarg_name])
